@@ -44,8 +44,8 @@ def mean_service(svc):
     return svc["base"] * (1 + svc["p"] * svc["factor"])
 
 
-def gen_task(g, prop, name, svc, allow_ramp):
-    t = {"name": name, "clients": g.pick([1, 1, 2, 2, 3, 4, 6])}
+def gen_task(g, prop, name, svc, allow_ramp, big=False):
+    t = {"name": name, "clients": g.pick([1, 1, 2, 2, 3, 4, 6] + ([8, 8] if big else []))}
     t["op"] = "composite" if prop == "C18" and g.coin(0.75) else g.pick(["sim-op", "sim-op", "raw-request"])
     ms = mean_service(svc)
     loop = g.weighted([5, 4, 2])
@@ -153,8 +153,9 @@ def gen_composite(g, task, depth, counter=None):
 
 def generate(prop, g, tier):
     svc = gen_service(g)
-    ntasks = g.pick([1, 1, 2, 3])
-    tasks = [gen_task(g, prop, f"t{i}", svc, True) for i in range(ntasks)]
+    big = tier == "thorough"
+    ntasks = g.pick([1, 1, 2, 3] + ([4] if big else []))
+    tasks = [gen_task(g, prop, f"t{i}", svc, True, big) for i in range(ntasks)]
     total = sum(t["clients"] for t in tasks)
     cfg = {
         "tasks": tasks,
@@ -170,7 +171,7 @@ def generate(prop, g, tier):
             t["warmup-time-period"] = max(t["warmup-time-period"], ramp)
         cfg["ramp"] = ramp
     # split the clients into contiguous worker groups
-    nworkers = min(total, g.pick([1, 1, 2, 3]))
+    nworkers = min(total, g.pick([1, 1, 2, 3] + ([4, 5] if big else [])))
     cuts = sorted(g.sample(range(1, total), nworkers - 1)) if nworkers > 1 else []
     bounds = [0] + cuts + [total]
     cfg["layout"] = [list(range(bounds[i], bounds[i + 1])) for i in range(nworkers)]
